@@ -29,7 +29,9 @@ func init() {
 		"vSig":        inSig,
 		"vYield":      inYield,
 		"vMon":        inMon,
+		"vMonC":       inMonC,
 		"vBlockUntil": inBlockUntil,
+		"vBlockUntilAny": inBlockUntil,
 		"vQuiesce":    inQuiesce,
 		"vThreadID":   inThreadID,
 		"vThreadIdle": inThreadIdle,
@@ -40,6 +42,14 @@ func init() {
 		"vFail":       inFail,
 		"vSections":   inSections,
 		"vPick":       inPick,
+		"vLockFree": func(t *Thread, fn *ssa.Function, args []Value, pos token.Pos) Value {
+			st := t.e.syncOf(t.derefPtr(args[0], pos))
+			return t.e.ts.Bool(st.writer == 0 && st.nread == 0)
+		},
+		"vThreadsCreated": func(t *Thread, fn *ssa.Function, args []Value, pos token.Pos) Value {
+			return t.e.ts.BV(64, uint64(len(t.e.threads)-1))
+		},
+		"vRaceChecked": inRaceChecked,
 	}
 }
 
@@ -453,19 +463,31 @@ func inYield(t *Thread, fn *ssa.Function, args []Value, pos token.Pos) Value {
 
 // vMon: a visible operation on the global harness monitor; all vMon transitions are mutually
 // dependent, and for harness-owned cells it behaves as acquire+release of a monitor lock.
+func inMonC(t *Thread, fn *ssa.Function, args []Value, pos token.Pos) Value {
+	class := t.concInt(args[0].(*Term), "vMonC class", pos)
+	return monBody(t, class, args[1], pos)
+}
+
 func inMon(t *Thread, fn *ssa.Function, args []Value, pos token.Pos) Value {
+	return monBody(t, 0, args[0], pos)
+}
+
+func monBody(t *Thread, class int, body Value, pos token.Pos) Value {
 	e := t.e
-	t.visible(&SyncOp{kind: "mon", obj: e.monObj, pos: t.posOf(pos), enabled: func() bool { return true }})
-	t.vcAll = vcJoin(t.vcAll, e.monClock)
-	e.monClock = vcJoin(e.monClock, t.vcAll)
+	t.visible(&SyncOp{kind: "mon", obj: e.monObj, class: class, pos: t.posOf(pos), enabled: func() bool { return true }})
+	t.vcAll = vcJoin(t.vcAll, e.monClock) // acquire the monitor
 	for len(t.vcAll) <= t.id {
 		t.vcAll = append(t.vcAll, 0)
 	}
-	t.vcAll[t.id]++
+	if t.vcAll[t.id] == 0 {
+		t.vcAll[t.id] = 1
+	}
 	// the monitor body runs atomically inside this transition (it must not contain visible operations)
 	t.inMon = true
-	t.callClosure(args[0], nil, pos)
+	t.callClosure(body, nil, pos)
 	t.inMon = false
+	e.monClock = vcJoin(e.monClock, t.vcAll) // release
+	t.vcAll[t.id]++
 	return nil
 }
 
@@ -482,7 +504,13 @@ func inBlockUntil(t *Thread, fn *ssa.Function, args []Value, pos token.Pos) Valu
 		return b.C == 1
 	}
 	e.multi = true
-	t.visible(&SyncOp{kind: "blockuntil", obj: nil, pos: t.posOf(pos), enabled: en})
+	// the condition reads harness monitor state only: the operation depends on monitor steps
+	// (vMon/vMonC), not on the framework's own synchronisation
+	var obj interface{} = e.monObj
+	if fn.Name() == "vBlockUntilAny" {
+		obj = nil // condition looks at scheduler state (vThreadIdle): dependent on everything
+	}
+	t.visible(&SyncOp{kind: "blockuntil", obj: obj, pos: t.posOf(pos), enabled: en})
 	return nil
 }
 
@@ -625,4 +653,39 @@ func inPick(t *Thread, fn *ssa.Function, args []Value, pos token.Pos) Value {
 		u.alts = append(u.alts, UnionAlt{g: e.ts.Eq(idx, e.ts.BV(64, uint64(k))), v: o})
 	}
 	return u
+}
+
+// vRaceChecked(p) marks harness-allocated memory (a pointer's target or a slice's elements) as
+// application data: accesses are race-checked against flyt's own happens-before, not the monitor's.
+func inRaceChecked(t *Thread, fn *ssa.Function, args []Value, pos token.Pos) Value {
+	v := args[0].(Iface)
+	var mark func(c *Cell)
+	mark = func(c *Cell) {
+		c.harness = false
+		switch x := c.v.(type) {
+		case *Struct:
+			for _, f := range x.f {
+				mark(f)
+			}
+		case *Array:
+			for _, f := range x.e {
+				mark(f)
+			}
+		}
+	}
+	switch x := v.v.(type) {
+	case *Cell:
+		if x != nil {
+			mark(x)
+		}
+	case Slice:
+		for _, c := range x.cells {
+			mark(c)
+		}
+	case *MapObj:
+		if x != nil {
+			x.cell.harness = false
+		}
+	}
+	return nil
 }
